@@ -198,6 +198,10 @@ func EncodeCells(cells []Cell) string {
 		cursor = next.Style
 		bldr.WriteString(next.Grapheme)
 	}
+	if cursor.Hyperlink != "" {
+		// SGR 0 doesn't end a hyperlink
+		bldr.WriteString(tparm(osc8, "", ""))
+	}
 	empty := Style{}
 	if cursor != empty {
 		bldr.WriteString(sgrReset)
